@@ -21,7 +21,7 @@ FUNCTIONS = ["KnowledgeBase::new", "KnowledgeBase::add_rule", "KnowledgeBase::re
 NAMES = ["r1", "r2", "r3", "r4"]
 TIERS = {
     "quick": [{"K": 5, "names": 4}],
-    "thorough": [{"K": 7, "names": 3}, {"K": 5, "names": 4}],
+    "thorough": [{"K": 6, "names": 3}, {"K": 5, "names": 4}],
 }
 ASSUMPTIONS = [
     "sequential histories only: the concurrent/linearizability half of C15 is NOT covered (locks are transparent in the single-threaded model)",
